@@ -33,7 +33,7 @@ ASSUMPTIONS = [
     "the task body and lightweight tasks of the universe only record their calls",
 ]
 MIN_CLASSES = {
-    "quick": {"route:instance": 1500, "route:params": 1000, "cycle": 400, "shared": 1000, "pre-task": 300, "init-task": 150, "shared-pre-task": 40},
+    "quick": {"second-instance-same-store": 500, "equal-distinct-pre-tasks": 25, "route:instance": 1500, "route:params": 1000, "cycle": 400, "shared": 1000, "pre-task": 300, "init-task": 150, "shared-pre-task": 40},
     "thorough": {"cycle": 4000, "shared-pre-task": 400},
 }
 MAX_NODES = {"quick": 6, "thorough": 10}
@@ -43,8 +43,14 @@ def cases(ctx):
     @st.composite
     def _cases(draw):
         route = draw(st.sampled_from(["instance", "instance", "params"]))
-        bp = draw(bpl.blueprints(max_nodes=MAX_NODES[ctx.tier], min_nodes=1, root_task=(route == "params"), density=30))
-        return {"bp": bp, "route": route, "root": draw(st.integers(0, 20))}
+        weights = [(c, w * 3 if c == "LW" else w) for c, w in bpl.CLASS_WEIGHTS]
+        bp = draw(bpl.blueprints(max_nodes=MAX_NODES[ctx.tier], min_nodes=1, root_task=(route == "params"), density=30, weights=weights, pre_pct=45))
+        # distinct lightweight tasks with the same content must stay distinct: make them frequent
+        for node in bp["nodes"]:
+            if node["cls"] == "LW":
+                node["args"] = [[a, (v if a != "k" or not isinstance(v, int) else v % 2)] for a, v in node["args"] if a == "k" or draw(st.booleans())]
+        # instance(): a second configuration of the graph is instantiated with the same object store
+        return {"bp": bp, "route": route, "root": draw(st.integers(0, 20)), "root2": draw(st.one_of(st.none(), st.integers(0, 20)))}
 
     return _cases()
 
@@ -161,6 +167,11 @@ def prop(ctx, case):
             pre_owner_count[p] = pre_owner_count.get(p, 0) + 1
     if any(c >= 2 for c in pre_owner_count.values()):
         labels.append("shared-pre-task")
+    lw_content = {}
+    for i in pre_owner_count:
+        lw_content.setdefault(json.dumps(bp["nodes"][i]["args"], sort_keys=True), []).append(i)
+    if any(len(v) >= 2 for v in lw_content.values()):
+        labels.append("equal-distinct-pre-tasks")
     nt = any(l in labels for l in ("shared", "cycle", "shared-pre-task"))
 
     try:
@@ -182,8 +193,9 @@ def prop(ctx, case):
     if route == "instance":
         k = case["root"] % n
         root = B.objs[k]
+        store = ObjectStore()
         try:
-            inst = root.instance(DirectoryContext(ctx.scratch / "inst"), objects=ObjectStore())
+            inst = root.instance(DirectoryContext(ctx.scratch / "inst"), objects=store)
         except RecursionError:
             ctx.violation("instance:RecursionError", f"instance() of node {k} raised RecursionError")
             ctx.record(nt, labels)
@@ -227,12 +239,26 @@ def prop(ctx, case):
         inst = captured[0]
         init_cfgs = list(root.__xpm__.init_tasks)
 
+    roots = [(root, inst, k)]
+    if route == "instance" and case.get("root2") is not None:
+        k2 = case["root2"] % n
+        try:
+            inst2 = B.objs[k2].instance(DirectoryContext(ctx.scratch / "inst"), objects=store)
+            roots.append((B.objs[k2], inst2, k2))
+            labels.append("second-instance-same-store")
+        except Exception as e:
+            ctx.violation(f"instance:raises:{type(e).__name__}", f"a second instance() with the same object store (node {k2} after node {k}) raised {type(e).__name__}: {e}")
     log = list(universe.LOG)
     m = Mirror(ctx)
-    m.visit(root, inst, f"node{k}")
+    for r_cfg, r_inst, r_k in roots:
+        m.visit(r_cfg, r_inst, f"node{r_k}")
     for sig, msg in m.problems[:3]:
         ctx.violation(f"mirror:{sig}", f"route {route}: {msg}")
-    configs, pre = reach_configs(root)
+    configs, pre = {}, {}
+    for r_cfg, _, _ in roots:
+        c1, p1 = reach_configs(r_cfg)
+        configs.update(c1)
+        pre.update(p1)
     # __post_init__ exactly once per runtime object, with its own parameters present
     posts = {}
     for kind, oid, cname, snapshot in log:
@@ -261,11 +287,39 @@ def prop(ctx, case):
     # every pre-task exactly once, every init task once per occurrence in the given sequence
     expected_pre = len(pre)
     expected_init = len(init_cfgs)
+    if route == "instance":
+        # by object: a pre-task runs once per instance() call in which one of the configurations
+        # it is attached to is newly constructed - once overall when there is a single call
+        counts = {}
+        for e in lw_execs:
+            counts[e[1]] = counts.get(e[1], 0) + 1
+        constructed = set()
+        allowed = {}
+        for r_cfg, _, _ in roots:
+            c1, _p = reach_configs(r_cfg)
+            new = {cid: c for cid, c in c1.items() if cid not in constructed}
+            for cid, c in new.items():
+                for p in c.__xpm__.pre_tasks:
+                    allowed[id(p)] = allowed.get(id(p), 0) + (0 if (id(p), id(r_cfg)) in allowed else 1)
+                    allowed[(id(p), id(r_cfg))] = True
+            constructed |= set(c1)
+        for pid, pcfg in pre.items():
+            obj = store.retrieve(pid)
+            got = counts.pop(id(obj), 0) if obj is not None else 0
+            most = allowed.get(pid, 1)
+            if got < 1:
+                ctx.violation("lightweight-executions:missing", f"route instance: a pre-task (k={pcfg.__xpm__.values.get('k')}) attached to a configuration of the graph was never executed")
+            elif got > most:
+                ctx.violation("lightweight-executions:repeated", f"route instance: a pre-task (k={pcfg.__xpm__.values.get('k')}) was executed {got} times over {len(roots)} instance() call(s); the configurations it is attached to were constructed in {most} of them")
+        if counts:
+            ctx.violation("lightweight-executions:unexpected", f"route instance: {sum(counts.values())} executions of lightweight tasks that are not pre-tasks of the graph")
     want_ks = sorted([p.__xpm__.values.get("k") for p in pre.values()] + [c.__xpm__.values.get("k") for c in init_cfgs])
     got_ks = sorted(e[3].get("k") for e in lw_execs)
     # pre-tasks attached to a *producing task* of an embedded output (reached only through the
     # output's link to its task) may or may not be run when a consumer is loaded: at most once
-    _, pre_loose = reach_configs(root, through_producers=True)
+    pre_loose = {}
+    for r_cfg, _, _ in roots:
+        pre_loose.update(reach_configs(r_cfg, through_producers=True)[1])
     optional = sorted(p.__xpm__.values.get("k") for pid, p in pre_loose.items() if pid not in pre)
     extra = list(got_ks)
     for k0 in want_ks:
@@ -282,7 +336,7 @@ def prop(ctx, case):
     if optional:
         labels.append("pre-task-of-producer")
         expected_pre = expected_pre + (len(got_ks) - len(want_ks) if ok_extra and not missing_any else 0)
-    if missing_any or not ok_extra:
+    if route == "params" and (missing_any or not ok_extra):
         kind = "missing" if len(got_ks) < len(want_ks) else ("repeated" if len(got_ks) > len(want_ks) else "other")
         ctx.violation(
             f"lightweight-executions:{kind}",
